@@ -34,6 +34,7 @@ fn main() {
     let code = match prop.as_str() {
         "C03" => props::c03::run(&env),
         "C04" => props::c04::run(&env),
+        "C05" => props::c05::run(&env),
         "C07" => props::c07::run(&env),
         "C11" => props::c11::run(&env),
         "C16" => props::c16::run(&env),
